@@ -207,4 +207,7 @@ def reach_locals(du, operand):
         for kind, bid, obj in du.defs.get(l, []):
             if kind == 'assign':
                 stack += [int(x) for x in re.findall(r'_(\d+)', obj.rhs)]
+            elif kind == 'call':
+                for a in obj.args:
+                    stack += [int(x) for x in re.findall(r'_(\d+)', a)]
     return {'_%d' % x for x in out}
